@@ -137,13 +137,30 @@ func tail(s []string, n int) []string {
 }
 
 // Main is the entry point of an E1 harness test.
-func Main(t *testing.T, id string, gen func(thorough bool) []Scenario) {
+func Main(t *testing.T, id string, gen0 func(thorough bool) []Scenario) {
+	// VERIF_ONLY=<substring> restricts the run to matching scenarios (debugging aid; the
+	// evidence of such a run is marked not exhaustive)
+	gen := gen0
+	if only := os.Getenv("VERIF_ONLY"); only != "" {
+		gen = func(th bool) []Scenario {
+			var out []Scenario
+			for _, s := range gen0(th) {
+				if strings.Contains(s.Name, only) {
+					out = append(out, s)
+				}
+			}
+			return out
+		}
+	}
 	if sh := os.Getenv("VERIF_SHARD"); sh != "" {
 		worker(t, sh, gen)
 		return
 	}
 	c := vlib.New(id, "model_checking")
 	scs := gen(c.Thorough())
+	if os.Getenv("VERIF_ONLY") != "" {
+		c.NotExhaustive("restricted to scenarios matching VERIF_ONLY")
+	}
 	if c.Replay != "" {
 		replay(t, c, scs)
 		return
